@@ -4,6 +4,7 @@ pub mod model;
 pub mod registry;
 pub mod util;
 pub mod checks;
+pub mod total;
 
 pub fn all_subs() -> Vec<vcore::Sub> {
     let mut v = Vec::new();
